@@ -198,6 +198,18 @@ func (ex *Exec) recvTsub(osig *types.Signature, recvT types.Type) map[*types.Typ
 }
 
 func (ex *Exec) callArgs(st *State, x *ast.CallExpr, ct *callTarget, k func(*State, []Val)) {
+	// a function literal passed directly to an effect-free external function may read the heap:
+	// nothing can change between its creation and its only uses inside that call
+	if ct.fn != nil && ct.fi == nil {
+		if c, ok := ex.prog.Ext[extKey(ct.fn)]; ok && c.Pure {
+			ex.allowHeapClosure = true
+			k0 := k
+			k = func(st *State, vs []Val) {
+				ex.allowHeapClosure = false
+				k0(st, vs)
+			}
+		}
+	}
 	sig := ct.sig
 	if len(x.Args) == 1 && sig != nil && sig.Params().Len() > 1 {
 		// f(g()) with multi-value g
@@ -606,34 +618,34 @@ func (ex *Exec) callFnValue(st *State, ct *callTarget, k func(*State, []Val)) {
 // forall a b. apply(c, a, b) = e.
 func (ex *Exec) pureClosureAxiom(st *State, c string, x *ast.FuncLit, ty types.Type) {
 	sig, ok := sigOf(ty)
-	if !ok || sig.Results().Len() != 1 || len(x.Body.List) != 1 {
+	if !ok || sig.Results().Len() != 1 {
 		return
 	}
-	ret, ok := x.Body.List[0].(*ast.ReturnStmt)
-	if !ok || len(ret.Results) != 1 {
-		return
-	}
-	// only expressions built from parameters, captured function values and pure calls
-	okExpr := true
-	ast.Inspect(ret.Results[0], func(n ast.Node) bool {
+	// only bodies built from if/else and return of effect-free expressions
+	okBody := true
+	ast.Inspect(x.Body, func(n ast.Node) bool {
 		switch c := n.(type) {
-		case *ast.FuncLit, *ast.IndexExpr, *ast.SliceExpr, *ast.StarExpr, *ast.TypeAssertExpr, *ast.CompositeLit:
-			okExpr = false
+		case *ast.IndexExpr:
+			if !ex.allowHeapClosure {
+				okBody = false
+			}
+		case *ast.FuncLit, *ast.SliceExpr, *ast.StarExpr, *ast.TypeAssertExpr, *ast.CompositeLit,
+			*ast.ForStmt, *ast.RangeStmt, *ast.AssignStmt, *ast.IncDecStmt, *ast.GoStmt, *ast.DeferStmt, *ast.SendStmt, *ast.SelectStmt:
+			okBody = false
 		case *ast.CallExpr:
 			if id, ok := c.Fun.(*ast.Ident); ok {
 				switch id.Name {
 				case "append", "make", "copy", "new", "delete", "panic", "close":
-					okExpr = false
+					okBody = false
 				}
 			}
 		}
-		return okExpr
+		return okBody
 	})
-	if !okExpr {
+	if !okBody {
 		return
 	}
 	fr := st.frame
-	// evaluate the body with parameters bound to quantified variables in a scratch state
 	scratch := st.fork()
 	nf := &Frame{parent: scratch.frame, fi: fr.fi, info: fr.info, tsub: fr.tsub, vars: map[types.Object]Val{}, names: map[string]types.Object{}, boxed: map[types.Object]bool{}, depth: scratch.frame.depth + 1, closure: scratch.frame}
 	nf.litSig = sig
@@ -654,51 +666,72 @@ func (ex *Exec) pureClosureAxiom(st *State, c string, x *ast.FuncLit, ty types.T
 			args = append(args, Val{T: qn, S: ps, Go: pt})
 		}
 	}
-	nf.onReturn = func(*State, []Val) {}
-	nf.onPanic = func(*State) {}
-	scratch.frame = nf
+	if len(decl) == 0 {
+		return
+	}
 	nObl := len(ex.obls)
 	nAss := len(scratch.assumes)
 	nDecl := len(ex.w.decls)
-	var body *Val
-	var guards []string
-	count := 0
+	heap0 := map[string]string{}
+	for k, v := range scratch.heap {
+		heap0[k] = v
+	}
+	type ret struct {
+		conds []string
+		val   string
+	}
+	var rets []ret
+	bad := false
+	nf.onReturn = func(s2 *State, vals []Val) {
+		if len(vals) != 1 {
+			bad = true
+			return
+		}
+		for k, v := range s2.heap {
+			if v0, ok := heap0[k]; ok && v0 != v {
+				bad = true // the body has effects
+			}
+		}
+		rets = append(rets, ret{append([]string{}, s2.assumes[nAss:]...), vals[0].T})
+	}
+	nf.onPanic = func(*State) {}
+	scratch.frame = nf
 	func() {
 		defer func() {
 			if r := recover(); r != nil {
 				if _, ok := r.(unsupportedErr); ok {
-					body = nil
-					count = 2
+					bad = true
 					return
 				}
 				panic(r)
 			}
 		}()
-		ex.expr(scratch, ret.Results[0], func(s2 *State, v Val) {
-			count++
-			body = &v
-			guards = append([]string{}, s2.assumes[nAss:]...)
-		})
+		ex.block(scratch, x.Body.List, func(s2 *State) { bad = true })
 	}()
 	// obligations produced while evaluating under quantified variables are not meaningful
 	ex.obls = ex.obls[:nObl]
-	if count == 1 && body != nil {
+	if !bad {
 		// definitions introduced while evaluating under bound variables must not escape
 		for _, d := range ex.w.decls[nDecl:] {
 			for _, dv := range decl {
 				bv := strings.Fields(strings.Trim(dv, "()"))[0]
 				if strings.Contains(d, bv) {
-					body = nil
+					bad = true
 				}
 			}
 		}
 	}
-	if count != 1 || body == nil || len(decl) == 0 {
+	if bad || len(rets) == 0 || len(rets) > 8 {
 		ex.w.undeclareFrom(nDecl)
 		return
 	}
+	// value = ite over the path conditions (the last path is the default)
+	body := rets[len(rets)-1].val
+	for i := len(rets) - 2; i >= 0; i-- {
+		body = sIte(sAnd(rets[i].conds...), rets[i].val, body)
+	}
 	app := ex.applyPure(Val{T: c, S: sRef, Go: ty}, sig, args)
-	st.assume(fmt.Sprintf("(forall (%s) (! (=> %s (= %s %s)) :pattern (%s)))", strings.Join(decl, " "), sAnd(guards...), app[0].T, body.T, app[0].T))
+	st.assume(fmt.Sprintf("(forall (%s) (! (= %s %s) :pattern (%s)))", strings.Join(decl, " "), app[0].T, body, app[0].T))
 }
 
 // ---------- contract application at a call site ----------
@@ -1274,7 +1307,11 @@ func (ex *Exec) entryState(fi *FuncInfo, c *Contract) (*State, *SpecEnv) {
 	ex.curProps = c.Props
 	st := &State{heap: map[string]string{}}
 	ex.entry = &State{heap: map[string]string{}}
-	fr := &Frame{fi: fi, info: fi.Pkg.P.TypesInfo, tsub: map[*types.TypeParam]types.Type{}, vars: map[types.Object]Val{}, names: map[string]types.Object{}, boxed: map[types.Object]bool{}}
+	tsub := map[*types.TypeParam]types.Type{}
+	for k, v := range ex.topTsub {
+		tsub[k] = v
+	}
+	fr := &Frame{fi: fi, info: fi.Pkg.P.TypesInfo, tsub: tsub, vars: map[types.Object]Val{}, names: map[string]types.Object{}, boxed: map[types.Object]bool{}}
 	st.frame = fr
 	info := fr.info
 	// symbolic parameters
@@ -1282,7 +1319,7 @@ func (ex *Exec) entryState(fi *FuncInfo, c *Contract) (*State, *SpecEnv) {
 	var args []Val
 	sig := fi.Obj.Type().(*types.Signature)
 	if sig.Recv() != nil {
-		v := ex.freshVal(st, "recv", sig.Recv().Type())
+		v := ex.freshVal(st, "recv", substType(sig.Recv().Type(), tsub))
 		recv = &v
 		if _, _, isPtr := structOf(v.Go); isPtr && !c.NoAutoRecvNonNil {
 			st.assume(sNot(sEq(v.T, "nil")))
@@ -1291,7 +1328,7 @@ func (ex *Exec) entryState(fi *FuncInfo, c *Contract) (*State, *SpecEnv) {
 	}
 	for i := 0; i < sig.Params().Len(); i++ {
 		p := sig.Params().At(i)
-		args = append(args, ex.freshVal(st, "arg_"+p.Name(), p.Type()))
+		args = append(args, ex.freshVal(st, "arg_"+p.Name(), substType(p.Type(), tsub)))
 	}
 	st.assume(sNot(sSel(ex.allocArr(st), "nil")))
 	ex.bindParams(st, fr, fi.Decl.Recv, fi.Decl.Type.Params, fi.Decl.Type.Results, info, recv, args)
@@ -1541,4 +1578,70 @@ func (ex *Exec) dispatchTo(st *State, ct *callTarget, k func(*State, []Val)) boo
 		return true
 	}
 	return false
+}
+
+// typeInstances: type-parameter instantiations under which a function is verified. A type
+// parameter whose constraint has a single non-basic core type (~map[K]V, ~[]T ...) is replaced by
+// that core type (the code can only use operations of the core type); a union of basic types is
+// verified once per member; everything else stays an uninterpreted sort.
+func typeInstances(fi *FuncInfo) ([]map[*types.TypeParam]types.Type, []string) {
+	sig := fi.Obj.Type().(*types.Signature)
+	var tps []*types.TypeParam
+	for _, l := range []*types.TypeParamList{sig.RecvTypeParams(), sig.TypeParams()} {
+		if l != nil {
+			for i := 0; i < l.Len(); i++ {
+				tps = append(tps, l.At(i))
+			}
+		}
+	}
+	insts := []map[*types.TypeParam]types.Type{{}}
+	names := []string{""}
+	for _, tp := range tps {
+		iface, ok := tp.Constraint().Underlying().(*types.Interface)
+		if !ok || iface.NumEmbeddeds() != 1 || iface.NumExplicitMethods() != 0 {
+			continue
+		}
+		var terms []*types.Term
+		switch e := iface.EmbeddedType(0).(type) {
+		case *types.Union:
+			for i := 0; i < e.Len(); i++ {
+				terms = append(terms, e.Term(i))
+			}
+		default:
+			continue
+		}
+		if len(terms) == 1 {
+			if _, isBasic := terms[0].Type().Underlying().(*types.Basic); !isBasic {
+				for _, m := range insts {
+					m[tp] = terms[0].Type()
+				}
+			}
+			continue
+		}
+		allInt := true
+		for _, t := range terms {
+			b, ok := t.Type().Underlying().(*types.Basic)
+			if !ok || b.Info()&types.IsInteger == 0 {
+				allInt = false
+			}
+		}
+		if !allInt {
+			continue
+		}
+		var ni []map[*types.TypeParam]types.Type
+		var nn []string
+		for i, m := range insts {
+			for _, t := range terms {
+				c := map[*types.TypeParam]types.Type{}
+				for k, v := range m {
+					c[k] = v
+				}
+				c[tp] = t.Type()
+				ni = append(ni, c)
+				nn = append(nn, names[i]+"<"+tp.Obj().Name()+"="+t.Type().String()+">")
+			}
+		}
+		insts, names = ni, nn
+	}
+	return insts, names
 }
